@@ -1,2 +1,66 @@
+"""C06.R2 variant conformance and index range checks, from the shape tables (wiretab)."""
+from mir import callee_names, calls_named, op_local, edge_only_region
+import shape
+import wiretab
+
+
 def run(prog, rep):
-    pass
+    rep.rule("C06.R2", "for every schema shape the decoder builds only the Value variant that validation accepts for it; enum and union indices are range-checked before a value is built")
+    T = wiretab.tables(prog)
+    sp = wiretab.spec()
+    dec, val = T["dec"], T["val"]
+    rep.floor("C06.R2", "schema shapes", len(dec), 31)
+    vshapes = set(k[1] for k in val)
+    for s in sorted(dec):
+        d = dec[s]
+        loc = d["tokens"][0].loc if d["tokens"] else ""
+        row = sp.get(s)
+        if row is None or not row["value"]:
+            continue
+        v = row["value"]
+        allowed = set([v] + row.get("via", []))
+        rep.ob("C06.R2", "decode %s builds Value::%s and nothing else on its success paths" % (s, v), v in d["values_ok"] and set(d["values_ok"]) <= allowed,
+               "decoder builds %s on paths that can return Ok (a value of another kind would be an invented or mis-typed datum)" % d["values_ok"], loc)
+        # the validator accepts that variant for the shape
+        accepts = [e["cls"] for _, e in wiretab.val_for(T, v, s)]
+        rep.ob("C06.R2", "validate accepts Value::%s for %s" % (v, s), bool(accepts) and all(c != "never" for c in accepts),
+               "validate_internal has no accepting arm for (%s, %s): %s" % (v, s, accepts), loc)
+    # index range checks in the decoder
+    b = prog.body("decode::decode_internal")
+    w = T["wire"]
+    vp = w.vpes(b)
+    root = [r for r, a in vp.roots.items() if a == "schema::Schema"][0]
+    # Enum: the Value::Enum aggregate is only reachable through the true edge of Range::contains(index)
+    reg = vp.region({(root, ()): "Enum"})
+    aggs = [(bi, st) for bi, st in shape.aggregates(b, "types::Value", "Enum") if bi in reg]
+    cont = [(bi, t) for bi, t in calls_named(b, "std::ops::Range::<Idx>::contains", "std::ops::RangeInclusive::<Idx>::contains") if bi in reg]
+    ltc = []
+    for bi, si, st in b.stmts():
+        if bi in reg and st["s"] == "assign" and st["rv"]["r"] == "bin" and st["rv"]["op"] in ("Lt", "Ge", "Gt", "Le"):
+            ltc.append((bi, st))
+    ok = False
+    if len(aggs) == 1:
+        for cbi, ct in cont:
+            sw = shape.call_bool_switch(b, cbi)
+            if sw and b.dominates(sw[2], aggs[0][0]) and edge_only_region(b, sw[0], sw[2]) is not None:
+                ok = True
+        gets = [(bi, t) for bi, t in calls_named(b, "core::slice::<impl [T]>::get") if bi in reg]
+        for gbi, gt in gets:
+            sw = shape.option_switch(b, gt["dest"]["l"])
+            if sw and b.dominates(sw[2], aggs[0][0]):
+                ok = True
+    rep.ob("C06.R2", "decode Enum: Value::Enum is built only after the index was found to be within the symbols", ok,
+           "an out-of-range enum index would be returned as a value (or index the symbol table out of bounds)", b.loc(aggs[0][0]) if aggs else b.loc())
+    reg = vp.region({(root, ()): "Union"})
+    aggs = [(bi, st) for bi, st in shape.aggregates(b, "types::Value", "Union") if bi in reg]
+    gets = [(bi, t) for bi, t in calls_named(b, "core::slice::<impl [T]>::get") if bi in reg]
+    ok = False
+    if len(aggs) == 1 and len(gets) == 1:
+        oo = [c for c in calls_named(b, "std::option::Option::<T>::ok_or", "std::option::Option::<T>::ok_or_else") if op_local(c[1]["args"][0]) == gets[0][1]["dest"]["l"]]
+        if len(oo) == 1:
+            ok = shape.gated_by_ok(b, oo[0][0], aggs[0][0]) and shape.err_edge_only_err(b, oo[0][0])
+        sw = shape.option_switch(b, gets[0][1]["dest"]["l"])
+        if sw and b.dominates(sw[2], aggs[0][0]) and shape.only_err(b, edge_only_region(b, sw[0], sw[1])):
+            ok = True
+    rep.ob("C06.R2", "decode Union: the branch is looked up with a checked get and a missing branch is an error", ok,
+           "a branch index outside the union would not be rejected", b.loc(aggs[0][0]) if aggs else b.loc())
